@@ -329,7 +329,32 @@ def extract_obligations(crate):
     early = []
     for lp in O.loops_of_body(b):
         early += [b.blocks[x]["tloc"]["line"] for (x, t) in lp.exits()[1]]
+        # "the last match": every advance of a match iterator is the head of a loop (a lone next() / nth() takes the first ones), the loop walks the
+        # matches themselves (no rev / skip / take / filter in between), and what it remembers is overwritten by every element unconditionally
+        if not lp.blocks:
+            early.append("%d (a single step, not a loop)" % b.blocks[lp.site.bb]["tloc"]["line"])
+            continue
+        it = lp.iterable
+        if not (it[0] == "call" and it[1].rsplit("::", 1)[-1] in ("captures_iter", "find_iter", "iter") and it[1].startswith("regex::")):
+            early.append("%d (the matches are adapted before the loop: %s)" % (b.blocks[lp.site.bb]["tloc"]["line"], show(it)[:50]))
+        g_head = S.block_guard(b, lp.head)
+        for l in range(1, len(b.locals)):
+            ds = [d for d in b.defs.get(l, []) if d[2] == []]
+            inside = [d for d in ds if d[0] in lp.blocks]
+            if not inside or len(inside) == len(ds):
+                continue
+            innermost = all(not (set(b.loops.get(h2, ())) < set(lp.blocks) and d[0] in b.loops.get(h2, ())) for d in inside for h2 in b.loops)
+            if not innermost:
+                continue
+            for d in inside:
+                if S.block_guard(b, d[0]) != g_head:
+                    early.append("%d (conditional update of what is remembered)" % b.blocks[d[0]]["tloc"]["line"])
     ret = b.val_local(0)
+    if ret[0] == "call" and ret[1].rsplit("::", 1)[-1] in ("new", "with_capacity") and ret[1].startswith("std::vec::Vec::"):
+        # a list created empty and filled by exactly one `extend(iterator)` outside every loop is that iterator collected
+        fills = [s_ for s_ in ss if s_.args and O.root_object(s_.args[0]) == ret and s_.path.rsplit("::", 1)[-1] not in ("len", "iter", "is_empty", "deref", "capacity")]
+        if len(fills) == 1 and fills[0].path == "std::iter::Extend::extend" and len(fills[0].args) == 2 and not b.loops_of(fills[0].bb):
+            ret = ("call", "std::iter::Iterator::collect", (fills[0].args[1],), None)
     shape = T.is_call(ret, "Iterator::collect") and ret[2] and ret[2][0][0] == "call" and ret[2][0][1].endswith("str>::split") and len(ret[2][0][2]) == 2 and ret[2][0][2][1] in (("const", "str", "."), ("const", "char", "."))
     x = ret[2][0][2][0] if shape else None
     alts = list(x[2]) if x is not None and x[0] == "phi" else ([x] if x is not None else [])
